@@ -22,7 +22,7 @@ from __future__ import annotations
 import hashlib
 import json
 
-from harness import common
+from harness import common, gen_targets
 from harness.common import Check, coq_bool
 
 META = {
@@ -888,6 +888,7 @@ def run(ck: Check) -> None:
     common.assert_repo_imports()
     logging.disable(logging.WARNING)     # the implementation logs every skipped key
     ck.coq_props()
+    gen_targets.run(ck)          # translator tie: Gallina regenerated from the source + coq/gen/EquivC16.v
     thorough = ck.tier == "thorough"
     rng = ck.rng
     jc = JsonContract()
@@ -1007,6 +1008,7 @@ def run(ck: Check) -> None:
         "torch: t.detach() aliases the storage of t; old.detach().copy_(new) writes new's values into old's storage (1-D float64, equal sizes or 1-element source)",
         "object graphs are trees of containers (no aliased containers, no cycles, no sets); tensors are distinct objects",
     ]
+    ck.gen_equiv_verdict()
 
 
 def replay(obj) -> bool:
